@@ -17,12 +17,14 @@
 (***************************************************************************)
 EXTENDS Integers, Sequences, FiniteSets, TLC, Json
 
-CONSTANTS Mode, MaxLen
+CONSTANTS Mode, MaxLen,
+          EarlyExit      \* --early-exit: a test that finds a counterexample shuts its solver executor down
 
 \* ("alias": the per-path cache of the deployed account a symbolic address was resolved to)
 \*  "cfg": the configuration in force (the --loop bound): per test, from the layers below the function annotation)
 \*  "subst": what a path has learnt about a post-setUp symbol (symbol == constant), used to concretise it later on
-Keys == {"s0", "t0", "bal", "code", "time", "s1", "alias", "cfg", "subst"}
+\*  "exec": the solver executor of the test's solving context has been shut down (1) - no query can be submitted any more
+Keys == {"s0", "t0", "bal", "code", "time", "s1", "alias", "cfg", "subst", "exec"}
 Setup == [k \in Keys |-> CASE k = "s0" -> 7 [] k = "s1" -> 1 [] k = "time" -> 1 [] k = "cfg" -> 2 [] OTHER -> 0]
 
 \* the concrete test functions of harness: checks/c20.py builds one bytecode body per entry
@@ -60,7 +62,12 @@ vars == <<state, hist, reported>>
 
 Apply(s, w) == [k \in Keys |-> IF k \in DOMAIN w THEN w[k] ELSE s[k]]
 Holds(s, e) == \A k \in DOMAIN e : s[k] = e[k]
-Result(start, t) == IF Holds(start, Tests[t].expects) THEN "PASS" ELSE "FAIL"
+\* a test whose executor is already shut down cannot solve anything: it ends without a verdict of its own
+Result(start, t) == IF start["exec"] = 1 THEN "ERROR" ELSE IF Holds(start, Tests[t].expects) THEN "PASS" ELSE "FAIL"
+\* what a test leaves behind: its writes, and under --early-exit a shut-down executor once it has found a counterexample
+Effects(start, t) ==
+    LET s1 == Apply(start, Tests[t].writes)
+    IN IF EarlyExit /\ Result(start, t) = "FAIL" THEN [s1 EXCEPT !["exec"] = 1] ELSE s1
 
 Init == state = Setup /\ hist = <<>> /\ reported = FALSE
 
@@ -68,7 +75,7 @@ RunTest(t) ==
     /\ Len(hist) < MaxLen /\ ~reported
     /\ LET start == state                      \* "copy": a private copy of `state`; "shared": `state` itself
        IN /\ hist' = Append(hist, [test |-> t, result |-> Result(start, t)])
-          /\ state' = IF Mode = "shared" THEN Apply(start, Tests[t].writes) ELSE state
+          /\ state' = IF Mode = "shared" THEN Effects(start, t) ELSE state
     /\ UNCHANGED reported
 
 Report == /\ ~reported /\ Len(hist) > 0
@@ -83,4 +90,6 @@ Spec == Init /\ [][Next]_vars
 EachTestStartsFromSetup == state = Setup
 \* the result of a test is a function of the test alone
 ResultIndependentOfHistory == \A i \in 1..Len(hist) : hist[i].result = Result(Setup, hist[i].test)
+\* every test has a live executor of its own (negative control: mode "shared" with EarlyExit)
+ExecutorPrivate == \A i \in 1..Len(hist) : hist[i].result # "ERROR"
 =============================================================================
